@@ -165,8 +165,74 @@ def probe_trigger_outlives_machine():
     return fails
 
 
+def probe_inherited_event_names():
+    """An inherited event stays *the* entry point of that name in a subclass, whatever else the subclass's MRO
+    offers under the name (a helper method written in the subclass body, an attribute of a mixin placed in front of
+    the machine class): `send(name)`, the item of `events` / `allowed_events` and the attribute are the same
+    trigger, and none of them calls the other attribute."""
+    import warnings
+    from statemachine import State, StateMachine
+    from statemachine.exceptions import TransitionNotAllowed
+    fails = []
+    calls = []
+    with warnings.catch_warnings():
+        warnings.simplefilter("ignore")
+
+        class Base(StateMachine):
+            idle = State(initial=True)
+            running = State()
+            start = idle.to(running)
+            stop = running.to(idle)
+
+        def helper(self, *a, **k):
+            calls.append("helper")
+            return "helper"
+
+        class Mixin:
+            stop = helper
+            start = "just a string"
+
+        variants = {
+            "method in the subclass body": type(Base)("SubBody", (Base,), {"stop": helper}),
+            "mixin in front of the machine": type(Base)("SubMixin", (Mixin, Base), {}),
+        }
+        for label, cls in variants.items():
+            try:
+                sm = cls()
+                del calls[:]
+                try:
+                    sm.send("stop")
+                    fails.append(f"{label}: send('stop') in state idle did not raise TransitionNotAllowed")
+                except TransitionNotAllowed:
+                    pass
+                sm.send("start")
+                if sm.current_state.id != "running":
+                    fails.append(f"{label}: send('start') left the machine in {sm.current_state.id}")
+                evs = [e for e in sm.allowed_events if e == "stop"]
+                if len(evs) != 1:
+                    fails.append(f"{label}: allowed_events in `running` is {list(sm.allowed_events)}")
+                else:
+                    evs[0]()
+                    if sm.current_state.id != "idle":
+                        fails.append(f"{label}: the `stop` item of allowed_events left the machine in {sm.current_state.id}")
+                sm.send("start")
+                sm.send("stop")
+                if sm.current_state.id != "idle":
+                    fails.append(f"{label}: send('stop') in state running left the machine in {sm.current_state.id}")
+                if sorted(str(e) for e in sm.events) != ["start", "stop"]:
+                    fails.append(f"{label}: events is {list(sm.events)}")
+                if calls:
+                    fails.append(f"{label}: sending a declared event called another attribute of that name: {calls}")
+            except Exception as e:
+                fails.append(f"{label}: {type(e).__name__}: {e}")
+    return fails
+
+
 def run(ctx):
     lean_obligations(ctx)
+    pf2 = probe_inherited_event_names()
+    if pf2:
+        ctx.violation(ctx.write_replay("inherited_event_names.txt", "\n".join(pf2) + "\n"), pf2[0])
     ctx.coverage["rule"] = ("seeded random machines and histories; every send uses one of five calling styles (sm.send, "
                             "event method, item of sm.events, item of sm.allowed_events, trigger bound onto another "
                             "object with bind_events_to); 22% of sends use a name drawn from dir(StateMachine), state "
